@@ -5,7 +5,7 @@ from parglare import REDUCE, SHIFT
 
 from pgverif import glrobs, pgx
 from pgverif.mon.cover import Cover
-from pgverif.props.c06 import OPS, climb, gen_expr, make_table, norm
+from pgverif.props.c06 import OPS, climb, gen_expr, make_table  # noqa: F401
 
 ID = "C18"
 LEVEL = "exploration"
@@ -42,7 +42,20 @@ def required(tier):
         "completeness.reductions_checked": 5000,
         "completeness.shifts_checked": 1000,
         "cover._call_dynamic_filter": 8,
+        "grammars.dynamic_empty_production": 50,
     }
+
+
+def norm(r):
+    """Parse result -> operator tree (the optional suffix Q of an atom is dropped)."""
+    if isinstance(r, list):
+        if len(r) == 2 and r[0] == "n":
+            return "n"
+        if len(r) == 3:
+            return (norm(r[0]), norm(r[1]), norm(r[2]))
+        if len(r) == 1:
+            return norm(r[0])
+    return r
 
 
 class Filter:
@@ -68,7 +81,7 @@ class Filter:
         return r
 
 
-def grammar_text(rng, table, dynp, dynt, static):
+def grammar_text(rng, table, dynp, dynt, static, dynq=False):
     alts = []
     for i, o in enumerate(table):
         meta = []
@@ -77,9 +90,12 @@ def grammar_text(rng, table, dynp, dynt, static):
         if dynp[o]:
             meta.append("dynamic")
         alts.append("E op%d E%s" % (i, (" {%s}" % ", ".join(meta)) if meta else ""))
-    alts += ['"(" E ")"', '"n"']
+    alts += ['"(" E ")"', '"n" Q']
     terms = ['op%d: "%s"%s;' % (i, o, " {dynamic}" if dynt[o] else "") for i, o in enumerate(table)]
-    return "E: " + " | ".join(alts) + ";\nterminals\n" + "\n".join(terms)
+    # an optional suffix whose empty alternative may be marked dynamic: reductions of empty
+    # dynamic productions must reach the filter too, with no sub-results
+    q = 'Q: "?" | EMPTY%s;' % (" {dynamic}" if dynq else "")
+    return "E: " + " | ".join(alts) + ";\n" + q + "\nterminals\n" + "\n".join(terms)
 
 
 def run(ctx):
@@ -109,8 +125,11 @@ def one_table(ctx):
         toks = gen_expr(rng, ops, rng.choice([2, 3, 3]))
         if len(toks) <= 11:
             exprs.append("".join(toks))
-    amb = grammar_text(rng, table, dynp, dynt, static=False)
-    stat = grammar_text(rng, table, dynp, dynt, static=True)
+    dynq = rng.random() < 0.5
+    if dynq:
+        ctx.count("grammars.dynamic_empty_production")
+    amb = grammar_text(rng, table, dynp, dynt, static=False, dynq=dynq)
+    stat = grammar_text(rng, table, dynp, dynt, static=True, dynq=dynq)
     for text, label in ((amb, "ambiguous"), (stat, "static")):
         # GLR accept-all == no filter
         try:
@@ -193,7 +212,7 @@ def one_table(ctx):
                     completeness_lr(ctx, case, f3.log, va)
     # --- precedence-encoding filter == static priorities == climbing --------------
     alld = {o: True for o in ops}
-    text = grammar_text(rng, table, alld, alld, static=False)
+    text = grammar_text(rng, table, alld, alld, static=False, dynq=dynq)
     prec = {"op%d" % i: table[o] for i, o in enumerate(ops)}
 
     def decide(context, from_state, to_state, action, production, subresults):
